@@ -8,8 +8,10 @@
 //
 // with a throw at the leaf (a symbol or an Error object), crossed with filler patterns: 0–2 filler statements (a
 // one-line local declaration, a four-line list literal) before every call site and before the throw, so that the
-// line tables of all frames differ from program to program. Calls are never in tail position (tail calls are
-// replaced, not active, frames). Callee definitions precede their callers.
+// line tables of all frames differ from program to program; the call site of every frame (and the throw) sits inside
+// one of {plain statement, if, while, do/finally, continuation line, do/catch, switch}, rotating with the pattern
+// index and the frame depth. Calls are never in tail position (tail calls are replaced, not active, frames). Callee
+// definitions precede their callers.
 //
 // Oracle: the generator knows the chain. The frames of the uncaught error's stack trace that belong to the program
 // file must be exactly the active frames, outermost first: the top level (line of its call), each function (its
